@@ -209,3 +209,51 @@ Definition P (doc : option json) (fault : bool) (o_json o_yaml : obs) : bool :=
          && (if fault || must_reject d then is_rejected o_json else true)
          && match o_json with OLoaded c => loaded_ok d c | _ => true end
      end.
+
+(* ---- SEVERAL loads in one process: history independence ----
+
+   "Any byte string ... is either rejected with an error or loaded into an effective
+   configuration ..." speaks about each document by itself: whether a document is rejected, and
+   what it loads to, is a function of its bytes - it must not depend on what the same process
+   loaded before (the operator loads all its hooks one after another; a hook may be loaded
+   again).  A session is observed as the list of its loads; each load is seen twice: in the
+   session (the k-th load of one process) and alone (the only load of a fresh process). *)
+
+Record sobs := mkSobs {
+  so_doc : option json;            (* None: raw bytes *)
+  so_fault : bool;                 (* the generator injected a fault into this document *)
+  so_json : obs;                   (* in the session: JSON rendering, YAML rendering *)
+  so_yaml : obs;
+  so_alone_json : obs;             (* alone, in a fresh process *)
+  so_alone_yaml : obs }.
+
+(* the clause "history independence": the k-th load of the session did what the load of the
+   same bytes does alone - same verdict, same effective configuration *)
+Definition history_independent (s : sobs) : bool :=
+  obs_eqb (so_json s) (so_alone_json s) && obs_eqb (so_yaml s) (so_alone_yaml s).
+
+(* a consequence that needs no second process: one document loaded twice in a session has one
+   outcome *)
+Definition same_doc (a b : sobs) : bool :=
+  match so_doc a, so_doc b with
+  | Some x, Some y => json_eqb x y
+  | _, _ => false
+  end.
+
+Fixpoint repeat_ok (l : list sobs) : bool :=
+  match l with
+  | [] => true
+  | s :: r =>
+      forallb (fun t => if same_doc s t
+                        then obs_eqb (so_json s) (so_json t) && obs_eqb (so_yaml s) (so_yaml t)
+                        else true) r
+      && repeat_ok r
+  end.
+
+(* every load of a session meets the single-document contract P, wherever it stands *)
+Definition step_ok (s : sobs) : bool :=
+  P (so_doc s) (so_fault s) (so_json s) (so_yaml s)
+  && P (so_doc s) (so_fault s) (so_alone_json s) (so_alone_yaml s)
+  && history_independent s.
+
+Definition P_session (l : list sobs) : bool := forallb step_ok l && repeat_ok l.
